@@ -153,6 +153,10 @@ func renderWith(t *testing.T, seed uint64, spec MsgSpec, mode string, k int) ren
 	hangTouch()
 	var rr renderResult
 	rr.sink = &faultSink{Mode: mode, K: k}
+	rich := mode == "rich"
+	if rich {
+		rr.sink.Mode = ""
+	}
 	b := BuildMsg(spec, BuildOpts{SMIMEKeys: SMIME})
 	rr.built = b
 	if b.BuildErr != nil {
@@ -170,6 +174,11 @@ func renderWith(t *testing.T, seed uint64, spec MsgSpec, mode string, k int) ren
 		// function adapter, a struct value that holds a slice (the latter two cannot be compared)
 		var w io.Writer = rr.sink
 		switch {
+		case rich || (k >= 0 && k%4 == 3):
+			// a destination that offers more than Write (a bufio.Writer, an *os.File, a
+			// compressor): whatever else the library finds on it, the verdict of the render is
+			// the verdict of the writes and of the producers
+			w = &richSink{s: rr.sink}
 		case k >= 0 && k%3 == 1:
 			w = writerFunc(rr.sink.Write)
 		case k >= 0 && k%3 == 2:
@@ -183,6 +192,36 @@ func renderWith(t *testing.T, seed uint64, spec MsgSpec, mode string, k int) ren
 type writerFunc func([]byte) (int, error)
 
 func (f writerFunc) Write(p []byte) (int, error) { return f(p) }
+
+// richSink has the optional methods destinations commonly have; all of them end in the sink's
+// Write, Flush/Sync/Close have nothing to report.
+type richSink struct{ s *faultSink }
+
+func (r *richSink) Write(p []byte) (int, error)       { return r.s.Write(p) }
+func (r *richSink) WriteString(p string) (int, error) { return r.s.Write([]byte(p)) }
+func (r *richSink) Flush() error                      { return nil }
+func (r *richSink) Sync() error                       { return nil }
+func (r *richSink) Close() error                      { return nil }
+func (r *richSink) ReadFrom(src io.Reader) (int64, error) {
+	var n int64
+	buf := make([]byte, 512)
+	for {
+		k, err := src.Read(buf)
+		if k > 0 {
+			w, werr := r.s.Write(buf[:k])
+			n += int64(w)
+			if werr != nil {
+				return n, werr
+			}
+		}
+		if err == io.EOF {
+			return n, nil
+		}
+		if err != nil {
+			return n, err
+		}
+	}
+}
 
 type sliceSink struct {
 	s   *faultSink
@@ -356,6 +395,14 @@ func (p *c12) exec(t *testing.T, scAny any) Outcome {
 		}
 		p.judge(&out, sc, rr, fmt.Sprintf("producer %d failing at %s, sink mode %q at %d", j, where, mode, k),
 			&C12Scenario{Msg: healthy, Mode: m, Producer: j, FailPos: where, K: k, Seed: sc.Seed}, full)
+		if mode == "" {
+			// the same failure, rendered into a destination that has Flush, WriteString, ReadFrom
+			rr := renderWith(t, sc.Seed, spec, "rich", k)
+			evals++
+			out.stat("probe.producer-failure-into-rich-destination", 1)
+			p.judge(&out, sc, rr, fmt.Sprintf("producer %d failing at %s, healthy destination with Flush/WriteString/ReadFrom", j, where),
+				&C12Scenario{Msg: healthy, Mode: "producer-rich", Producer: j, FailPos: where, K: k, Seed: sc.Seed}, full)
+		}
 	}
 	switch sc.Mode {
 	case "none":
@@ -420,7 +467,7 @@ func (p *c12) exec(t *testing.T, scAny any) Outcome {
 				runProducerCombo(r, runProducer, n, full)
 			}
 		}
-	case "producer":
+	case "producer", "producer-rich":
 		runProducer(sc.Producer, sc.FailPos, "", -1)
 	case "combo":
 		// the sink mode is not stored separately for combos: replay all modes at K
@@ -455,13 +502,13 @@ func (p *c12) Shrink(scAny any) []any {
 		f(&c.Msg)
 		out = append(out, &c)
 	}
-	if len(m.Attach) > 0 && !(sc.Mode == "producer" || sc.Mode == "combo") {
+	if len(m.Attach) > 0 && !(strings.HasPrefix(sc.Mode, "producer") || sc.Mode == "combo") {
 		try(func(c *MsgSpec) { c.Attach = c.Attach[:len(c.Attach)-1] })
 	}
-	if len(m.Embeds) > 0 && !(sc.Mode == "producer" || sc.Mode == "combo") {
+	if len(m.Embeds) > 0 && !(strings.HasPrefix(sc.Mode, "producer") || sc.Mode == "combo") {
 		try(func(c *MsgSpec) { c.Embeds = c.Embeds[:len(c.Embeds)-1] })
 	}
-	if len(m.Parts) > 1 && !(sc.Mode == "producer" || sc.Mode == "combo") {
+	if len(m.Parts) > 1 && !(strings.HasPrefix(sc.Mode, "producer") || sc.Mode == "combo") {
 		try(func(c *MsgSpec) { c.Parts = c.Parts[:len(c.Parts)-1] })
 	}
 	if m.SMIME != "" {
@@ -475,7 +522,7 @@ func (p *c12) Shrink(scAny any) []any {
 
 func (p *c12) Info() PropInfo {
 	return PropInfo{
-		Rule: "per message shape (8 fixed corner shapes: single part 7bit/8bit/base64 at top level, alternative, mixed>related>alternative, a sole file, S/MIME, no part; then generated shapes over 0..3 alternatives/embeds/attachments x QP/base64/8bit/7bit x file sources x optional S/MIME): the sink (a pointer, a function adapter or a struct value holding a slice, by offset) fails at EVERY byte offset of the output in four modes (S/MIME-signed shapes: every 6th offset with ECDSA, every 48th with RSA in the quick tier, every offset / every 12th in the thorough tier, seeded phase - signing costs up to 9 ms per render) (persistent or one-shot x short write or whole-write refusal), every producer fails at {before first byte, middle, after last byte} with seven error identities, fs.FS and file-system sources that cannot be opened any more at render time, ReadSeeker sources that read but cannot be rewound, plus 40 sampled producer+sink combinations; evaluations = renders; non-trivial = every shape; distinct = distinct shapes (token, output length)",
+		Rule: "per message shape (8 fixed corner shapes: single part 7bit/8bit/base64 at top level, alternative, mixed>related>alternative, a sole file, S/MIME, no part; then generated shapes over 0..3 alternatives/embeds/attachments x QP/base64/8bit/7bit x file sources x optional S/MIME): the sink (a pointer, a function adapter, a struct value holding a slice, or a destination that also has Flush/Sync/Close/WriteString/ReadFrom, by offset; every producer failure additionally into a healthy destination of the last kind) fails at EVERY byte offset of the output in four modes (S/MIME-signed shapes: every 6th offset with ECDSA, every 48th with RSA in the quick tier, every offset / every 12th in the thorough tier, seeded phase - signing costs up to 9 ms per render) (persistent or one-shot x short write or whole-write refusal), every producer fails at {before first byte, middle, after last byte} with seven error identities, fs.FS and file-system sources that cannot be opened any more at render time, ReadSeeker sources that read but cannot be rewound, plus 40 sampled producer+sink combinations; evaluations = renders; non-trivial = every shape; distinct = distinct shapes (token, output length)",
 		Assumptions: []string{"a sink that returns n < len(p) without an error breaks the io.Writer contract and is not injected",
 			"'bytes the destination accepted' is the sum of the counts the sink returned"},
 		Real:        []string{"go-mail Msg.WriteTo, msgWriter, base64LineBreaker, S/MIME signing (internal/pkcs7)", "mime/multipart, mime/quotedprintable, encoding/base64"},
